@@ -13,5 +13,9 @@ for f in coq/extract/*.v; do
 done
 echo "[setup] rust harness"
 [ -f harness/Cargo.lock ] || cp /repo/Cargo.lock harness/Cargo.lock
-( cd harness && RUSTFLAGS="--cfg grmtools_verif" CARGO_TARGET_DIR=../.work/target cargo build --offline --release 2>&1 | tail -2 ) || exit 1
+for f in harness/src/bin/*.rs; do
+  b=$(basename "$f" .rs)
+  ( cd harness && RUSTFLAGS="--cfg grmtools_verif" CARGO_TARGET_DIR=../.work/target cargo build --offline --release --bin "$b" 2>&1 | tail -1 ) || echo "[setup] WARNING: harness binary $b failed to build"
+done
+( cd harness && RUSTFLAGS="--cfg grmtools_verif" CARGO_TARGET_DIR=../.work/target cargo build --offline --bin c20 2>&1 | tail -1 ) || true
 echo "[setup] done"
